@@ -446,6 +446,7 @@ type Clause struct {
 	Line     int
 	Props    []string // property ids this clause is claimed for (empty: all of the function's)
 	Internal bool     // `proves`: an obligation of the function's own proof (may mention its locals), not exported to callers
+	Assumed  bool     // `trusts`: exported to callers but not proved (an assumption)
 }
 
 type GhostSet struct {
@@ -492,6 +493,7 @@ type Contract struct {
 	Line        int
 	Why         string
 	IntOverflow bool
+	StrExt      bool         // extensionality axioms for short string literals
 	EMatch      bool         // wrap element index sums in ix() for arithmetic-free triggers
 	Extern      bool         // contract of a function outside the package of the file
 	Unreachable map[int]bool // return sites (ordinals) known to be dead code
@@ -552,7 +554,7 @@ type SpecFile struct {
 var topKeywords = map[string]bool{"global": true, "spec": true, "ghost": true, "func": true, "lemma": true, "iface": true, "guarded": true, "level": true, "extern": true}
 var clauseKeywords = map[string]bool{"safe": true, "inline": true, "pure": true, "props": true, "requires": true, "ensures": true,
 	"modifies": true, "invariant": true, "loopmodifies": true, "assume": true, "assert": true, "trusted": true, "reads": true,
-	"fresh": true, "ghost": true, "why": true, "nooverflow": true, "witness": true, "uses": true, "ematch": true, "unreachable": true, "dyncall": true, "proves": true}
+	"fresh": true, "ghost": true, "why": true, "nooverflow": true, "witness": true, "uses": true, "ematch": true, "strext": true, "unreachable": true, "dyncall": true, "proves": true, "trusts": true}
 
 // parseSpecText parses the //@ lines of a contract file.  pkg is the
 // package path the file belongs to ("" for the trusted table).
@@ -752,6 +754,8 @@ func parseSpecText(pkg, file, text string) (*SpecFile, error) {
 			cur.Fresh = true
 		case "nooverflow":
 			cur.IntOverflow = true
+		case "strext":
+			cur.StrExt = true
 		case "ematch":
 			cur.EMatch = true
 		case "dyncall":
@@ -806,7 +810,7 @@ func parseSpecText(pkg, file, text string) (*SpecFile, error) {
 			cur.Witness[strings.TrimSpace(s.rest[:i])] = w
 		case "props":
 			cur.Props = strings.Fields(s.rest)
-		case "requires", "ensures", "assume", "proves":
+		case "requires", "ensures", "assume", "proves", "trusts":
 			c, err := mkClause(s.n, s.rest)
 			if err != nil {
 				return nil, err
@@ -816,6 +820,11 @@ func parseSpecText(pkg, file, text string) (*SpecFile, error) {
 				cur.Requires = append(cur.Requires, c)
 			case "proves":
 				c.Internal = true
+				cur.Ensures = append(cur.Ensures, c)
+			case "trusts":
+				// a postcondition callers may rely on that is NOT proved here
+				// (an assumption, listed in the evidence)
+				c.Assumed = true
 				cur.Ensures = append(cur.Ensures, c)
 			case "ensures":
 				cur.Ensures = append(cur.Ensures, c)
@@ -1134,13 +1143,7 @@ func splitConjMacro(e SExpr, lookup func(name string) *SpecFunc) []SExpr {
 		}
 		if c, ok := body.(SCall); ok {
 			if sf := lookup(c.Fun); sf != nil && len(sf.Params) == len(c.Args) && !mentionsOld(sf.Body) {
-				argsOld := false
-				for _, a := range c.Args {
-					if mentionsOld(a) {
-						argsOld = true
-					}
-				}
-				if parts := splitConj(sf.Body); len(parts) > 1 && !argsOld {
+				if parts := splitConj(sf.Body); len(parts) > 1 {
 					m := map[string]SExpr{}
 					for i, prm := range sf.Params {
 						m[prm.Name] = c.Args[i]
